@@ -257,6 +257,7 @@ class FuncVerifier:
         self._local_pure_done = set()
         self.comp_counter = 0
         self.ret_ty = None
+        self._deep_done = set()
 
     # ------------------------------------------------------------ utilities
     def err(self, node, msg):
@@ -355,15 +356,18 @@ class FuncVerifier:
                 todo.extend(self.E.fe.classes[x].bases)
         return out
 
+    @staticmethod
+    def pattern_unsafe(t, depth=0):
+        if depth > 8 or not z3.is_app(t):
+            return False
+        k = t.decl().kind()
+        if k in (z3.Z3_OP_ITE, z3.Z3_OP_AND, z3.Z3_OP_OR, z3.Z3_OP_NOT, z3.Z3_OP_IMPLIES, z3.Z3_OP_EQ):
+            return True
+        return any(FuncVerifier.pattern_unsafe(c, depth + 1) for c in t.children())
+
     def pattern_safe(self, st, sv):
         """terms used in quantifier patterns must not contain if-then-else / connectives: name them"""
-        def bad(t, depth=0):
-            if depth > 6 or not z3.is_app(t):
-                return False
-            k = t.decl().kind()
-            if k in (z3.Z3_OP_ITE, z3.Z3_OP_AND, z3.Z3_OP_OR, z3.Z3_OP_NOT, z3.Z3_OP_IMPLIES):
-                return True
-            return any(bad(c, depth + 1) for c in t.children())
+        bad = self.pattern_unsafe
         if self.binders or not bad(sv.term):
             return sv
         c = self.E.fresh('nm', sv.ty)
@@ -915,6 +919,15 @@ class FuncVerifier:
         tf = self.typed_fact(val, fty)
         if not z3.is_true(tf) and not self.binders and not spec and not self.bound_env:
             self.add_fact(st, tf)
+        if not self.binders and not self.bound_env and fty.kind in ('map', 'seq', 'set', 'tuple', 'opt', 'obj'):
+            key = val.get_id()
+            if key not in self._deep_done and not self.pattern_unsafe(val):
+                self._deep_done.add(key)
+                # static typing of a heap term is path independent: recorded unguarded
+                base_ok = z3.And(base.term != P.none) if True else None
+                for f in [tf] + self.deep_facts(val, fty):
+                    if not z3.is_true(f):
+                        self.local_axioms.append(z3.Implies(base_ok, f))
         return sv
 
     # ---- quantifiers & spec forms
